@@ -10,6 +10,7 @@ import (
 	"verif/harness/core"
 	"verif/harness/explore"
 	"verif/harness/gen"
+	"verif/harness/mstore"
 )
 
 // ---------------------------------------------------------------------------------
@@ -21,6 +22,7 @@ type pairScenario struct {
 	w1, w2 core.Window
 	procs  int
 	dq, dt int
+	faults []mstore.Fault
 }
 
 func c12Pairs() []pairScenario {
@@ -28,13 +30,17 @@ func c12Pairs() []pairScenario {
 	r12 := core.Range(10000, 30000, 12)
 	inst := core.Instant(40000)
 	return []pairScenario{
-		{"P1:a|a", `a`, `a`, r2, r2, 4, 2, 2},
-		{"P2:a|sum by (l)(a)", `a`, `sum by (l) (a)`, r2, r2, 2, 2, 2},
-		{"P3:rate range|a instant", `rate(a[1m])`, `a`, r2, inst, 2, 1, 2},
-		{"P4:a+b|a", `a + on (l) group_left b`, `a`, r2, r2, 2, 1, 1},
-		{"P5:sum(a)|topk(1,a)", `sum(a)`, `topk(1, a)`, r2, r2, 2, 2, 2},
-		{"P6:a 12 steps|a 12 steps", `a`, `a`, r12, r12, 2, 1, 1},
-		{"P7:-a|clamp_min(a,scalar(b))", `-a`, `clamp_min(a, scalar(b{l="0"}))`, r2, r2, 2, 1, 1},
+		{"P1:a|a", `a`, `a`, r2, r2, 4, 2, 2, nil},
+		{"P2:a|sum by (l)(a)", `a`, `sum by (l) (a)`, r2, r2, 2, 2, 2, nil},
+		{"P3:rate range|a instant", `rate(a[1m])`, `a`, r2, inst, 2, 1, 2, nil},
+		{"P4:a+b|a", `a + on (l) group_left b`, `a`, r2, r2, 2, 1, 1, nil},
+		{"P5:sum(a)|topk(1,a)", `sum(a)`, `topk(1, a)`, r2, r2, 2, 2, 2, nil},
+		{"P6:a 12 steps|a 12 steps", `a`, `a`, r12, r12, 2, 1, 1, nil},
+		{"P7:-a|clamp_min(a,scalar(b))", `-a`, `clamp_min(a, scalar(b{l="0"}))`, r2, r2, 2, 1, 1, nil},
+		// one of the two queries hits a storage failure: the other one must not notice, and the
+		// failing one must fail in every interleaving
+		{"P8:a+b with a failing select|a", `a + on (l) group_left b`, `a{l="1"}`, r2, r2, 2, 1, 2, []mstore.Fault{{Kind: "select", Sel: `{__name__="a"}@-290000,40000`, Series: -1, Nth: 0, Action: "error"}}},
+		{"P9:sum by (l)(a) with a failing iterator|b", `sum by (l) (a)`, `b`, r2, r2, 2, 1, 2, []mstore.Fault{{Kind: "seek", Series: 1, Nth: 0, Action: "error"}}},
 	}
 }
 
@@ -43,7 +49,7 @@ func init() {
 		for _, ps := range c12Pairs() {
 			data := gen.SchedData(ps.w1.NSteps() + 3)
 			o := core.Opts{Procs: ps.procs, Optimizers: "none"}
-			c1 := core.Case{Q: ps.q1, Data: data, W: ps.w1, O: o}
+			c1 := core.Case{Q: ps.q1, Data: data, W: ps.w1, O: o, Faults: ps.faults}
 			c2 := core.Case{Q: ps.q2, Data: data, W: ps.w2, O: o}
 			solo1 := explore.RunOnce(&explore.Scenario{Name: "solo1", Case: c1}, explore.Sched{EventStep: -1})
 			solo2 := explore.RunOnce(&explore.Scenario{Name: "solo2", Case: c2}, explore.Sched{EventStep: -1})
